@@ -930,6 +930,7 @@ class Server:
             acquired=False,
             restart_offset=0,
             passive_server_lock=asyncio.Lock(),
+            command_lock=asyncio.Lock(),
             _dispatcher=get_current_task(),
         )
         connection.path_io = self.path_io_factory(
@@ -975,9 +976,8 @@ class Server:
                         previous_command = cmd
                         f = self.commands_mapping.get(cmd)
                         if f is not None:
-                            pending.add(
-                                asyncio.create_task(f(connection, rest)),
-                            )
+                            coro = self._run_command(f, connection, rest)
+                            pending.add(asyncio.create_task(coro))
                         else:
                             message = f"{cmd!r} not implemented"
                             connection.response("502", message)
@@ -1010,6 +1010,14 @@ class Server:
             self.connections.pop(key)
             if tasks_to_wait:
                 await asyncio.wait(tasks_to_wait)
+
+    @staticmethod
+    async def _run_command(f, connection, rest):
+        # commands received back to back are handled one after another:
+        # a handler suspended in its checks must not see the session
+        # state (user, current directory) changed by the next command
+        async with connection.command_lock:
+            return await f(connection, rest)
 
     @staticmethod
     def get_paths(connection, path):
